@@ -61,7 +61,8 @@ def gen_span(r: Any, k: int, ids: list[str]) -> Any:
     for a in range(r.choice([0, 1, 2, 3])):
         key = r.choice(["http.method", "http.response", "app.service", "app.namespace"])
         if key == "http.response":
-            attrs.append(attr(r, key, r.choice(["200", 404, "500"]), "IntValue"))
+            # typed values: mostly IntValue, sometimes only the string form is present
+            attrs.append(attr(r, key, r.choice(["200", 404, "500"]), "IntValue" if r.random() < 0.6 else "StringValue"))
         else:
             attrs.append(attr(r, key, r.choice(["GET", "PUT", "svc", "ns", ""])))
     if r.random() < 0.08:
@@ -148,8 +149,10 @@ def gen_alt(r: Any, field: str, rs: str) -> dict[str, Any]:
         return {"kp": f"{rs}instrumentation_library_spans.[].{SP}.[]." + plain[field], "kv": None, "vp": None}
     if kind == "span_attr":
         key = r.choice(["http.method", "http.response", "app.service", "nope"])
-        return {"kp": span + "attributes.[].key", "kv": key,
-                "vp": "value.Value." + ("IntValue" if key == "http.response" else "StringValue")}
+        typed = "IntValue" if key == "http.response" else "StringValue"
+        if r.random() < 0.25:
+            typed = "StringValue" if typed == "IntValue" else "IntValue"
+        return {"kp": span + "attributes.[].key", "kv": key, "vp": "value.Value." + typed}
     if kind == "res_attr":
         return {"kp": f"{rs}resource.attributes.[].key", "kv": r.choice(["service.name", "service.version", "nope"]),
                 "vp": "value.Value.StringValue"}
@@ -171,6 +174,13 @@ def gen_mapping(r: Any, without_list: bool) -> list[dict[str, Any]]:
         for _ in range(nparts):
             nalt = r.choice([1, 1, 1, 2, 3])
             alts = [gen_alt(r, f, rs) for _ in range(nalt)]
+            if nparts > 1 and r.random() < 0.25:
+                # the documented fall-back over typed values: the same key of the same array read through two value
+                # paths (and, in another field or part, possibly again)
+                key = r.choice(["http.response", "http.method"])
+                span0 = f"{rs}{SS}.[].{SP}.[]."
+                alts = [{"kp": span0 + "attributes.[].key", "kv": key, "vp": "value.Value." + t}
+                        for t in r.sample(["IntValue", "StringValue"], 2)]
             if both_layouts and alts[0]["kv"] is None and SP in alts[0]["kp"] and "instrumentation" not in alts[0]["kp"]:
                 alts.append({"kp": alts[0]["kp"].replace(f"{SS}.[].", "instrumentation_library_spans.[]."),
                              "kv": None, "vp": None})
